@@ -141,3 +141,68 @@ func runOSBase(c *Ctx, prop string) {
 	}
 	c.Extra["os_base"] = fmt.Sprintf("%d calls through the wrapper over BasePathFs(OsFs, temp dir): all 4096 flag words x 4 names + %d mutators, directory snapshot compared (oracle only)", n, len(muts))
 }
+
+// C06 with an operating-system OVERLAY (oracle only): the OS reports ENOTDIR for a name below a
+// regular file where MemMapFs says "not exist"; the union must then still show the base's entry
+// ("the overlay's entry if the overlay has one and otherwise the base's entry").
+func runOSOverlay(c *Ctx) {
+	dir, err := os.MkdirTemp("", "afosovl-")
+	if err != nil {
+		panic(err)
+	}
+	defer os.RemoveAll(dir)
+	os.MkdirAll(filepath.Join(dir, "d"), 0o755)
+	os.WriteFile(filepath.Join(dir, "a"), []byte("x"), 0o644)       // a regular file where the base has a directory
+	os.WriteFile(filepath.Join(dir, "d", "o"), []byte("ovl"), 0o644) // overlay-only file
+	os.WriteFile(filepath.Join(dir, "d", "both"), []byte("OVERLAY"), 0o644)
+	base := afero.NewMemMapFs()
+	afero.WriteFile(base, "/a/f", []byte("base-f"), 0o644)
+	afero.WriteFile(base, "/d/b", []byte("base-b"), 0o644)
+	afero.WriteFile(base, "/d/both", []byte("base"), 0o644)
+	afero.WriteFile(base, "/e/g", []byte("base-g"), 0o644)
+	u := afero.NewCopyOnWriteFs(base, afero.NewBasePathFs(afero.NewOsFs(), dir))
+	want := map[string]string{ // path -> content ("/" suffix on the key = directory)
+		"/a": "x", "/d/": "", "/d/o": "ovl", "/d/both": "OVERLAY", "/d/b": "base-b", "/e/": "", "/e/g": "base-g",
+		"/a/f": "base-f", // the overlay has NO entry for this path (it cannot: /a is a file there): the base's shows
+	}
+	n := 0
+	for k, content := range want {
+		p := strings.TrimSuffix(k, "/")
+		isDir := strings.HasSuffix(k, "/")
+		n++
+		c.Count("osoverlay.path")
+		fi, err := u.Stat(p)
+		if err != nil {
+			c.Oracle("FAIL osovl%d view-differs:os-overlay:Stat Stat(%q) through the union over an OsFs overlay: %v, but the view holds this path", n, p, err)
+			continue
+		}
+		if fi.IsDir() != isDir {
+			c.Oracle("FAIL osovl%d view-differs:os-overlay:kind Stat(%q).IsDir() = %v, want %v", n, p, fi.IsDir(), isDir)
+			continue
+		}
+		if !isDir {
+			b, err := afero.ReadFile(u, p)
+			if err != nil || string(b) != content {
+				c.Oracle("FAIL osovl%d view-differs:os-overlay:content ReadFile(%q) = %q, %v; want %q", n, p, b, err, content)
+			}
+		}
+	}
+	for _, p := range []string{"/nope", "/a/nope", "/d/nope", "/a/f/x"} {
+		if _, err := u.Stat(p); err == nil {
+			c.Oracle("FAIL osovl-absent view-differs:os-overlay:absent Stat(%q) succeeds, neither layer has it", p)
+		}
+	}
+	if fis, err := afero.ReadDir(u, "/d"); err == nil {
+		var names []string
+		for _, x := range fis {
+			names = append(names, x.Name())
+		}
+		sort.Strings(names)
+		if strings.Join(names, ",") != "b,both,o" {
+			c.Oracle("FAIL osovl-list listing:os-overlay ReadDir(/d) = %v, want [b both o]", names)
+		}
+	} else {
+		c.Oracle("FAIL osovl-list listing:os-overlay ReadDir(/d): %v", err)
+	}
+	c.Extra["os_overlay"] = fmt.Sprintf("%d paths of a union MemMapFs base + BasePathFs(OsFs) overlay incl. a base file below an overlay regular file (oracle only)", n)
+}
